@@ -126,7 +126,7 @@ theorem frSilk_spec (s : St) (fi : FrameIn) (o : FrameOr) (hp : FramePre s fi)
             unfold silkDtxRes
             refine ⟨rfl, by simp, by simp; omega, by simp, by simp, by simp, by simp, ?_, ?_⟩
             · exact ⟨_, by rw [hm, Keeps.fs hkp, Keeps.streamChannels hkp], hcb.1, hcb.2⟩
-            · exact hkp.trans (silkSt2_keeps p o)
+            · exact hkp.trans (Keeps.trans (silkSt2_keeps p o) rfl)
           · split
             · right; exact ⟨_, rfl, hkp.trans (Keeps.trans (silkSt2_keeps p o) rfl), hcb.1, hcb.2⟩
             · right; exact ⟨_, rfl, hkp.trans (silkSt2_keeps p o), hcb.1, hcb.2⟩
